@@ -254,6 +254,16 @@ fn public_route(acc: &mut Acc, tz_value: &str, z: &RefZone, years: &[i64], label
             } else {
                 a.hit(PUBLIC);
             }
+            // the offset-only query and the selectors of its result: same candidates, earliest first
+            let wanto = wantm.map(|t| (w - t) as i32);
+            let goto = guard(|| {
+                let r = Local.offset_from_local_datetime(&wn).map(|o| o.fix().local_minus_utc());
+                (r, r.earliest(), r.latest(), r.single())
+            });
+            a.transitions += 1;
+            if goto != Ok((wanto, wanto.earliest(), wanto.latest(), wanto.single())) {
+                a.violation("public:offset_from_local_datetime", format!("TZ={} Local.offset_from_local_datetime({:?}) and earliest() / latest() / single() of it", label, wn), format!("{:?} (earliest first)", wanto), format!("{:?}", goto));
+            }
         }
         a
     })
@@ -261,6 +271,29 @@ fn public_route(acc: &mut Acc, tz_value: &str, z: &RefZone, years: &[i64], label
     match res {
         Ok(a) => acc.merge(a),
         Err(_) => acc.violation("public:panic", format!("TZ={} conversions on a fresh thread", tz_value), "no panic".into(), "panic".into()),
+    }
+}
+
+/// the result type's selectors and `map` keep "earliest first" (pure functions, checked on every shape)
+fn mapped_local_time_algebra(acc: &mut Acc) {
+    type M = MappedLocalTime<i64>;
+    let shapes: Vec<M> = vec![M::None, M::Single(7), M::Ambiguous(3, 9), M::Ambiguous(9, 3), M::Ambiguous(5, 5)];
+    for m in shapes {
+        acc.transitions += 4;
+        let (e, l, sg) = match m {
+            M::None => (None, None, None),
+            M::Single(x) => (Some(x), Some(x), Some(x)),
+            M::Ambiguous(a, b) => (Some(a), Some(b), None),
+        };
+        let mapped = m.map(|x| x * 2 + 1);
+        let want_mapped = match m {
+            M::None => M::None,
+            M::Single(x) => M::Single(x * 2 + 1),
+            M::Ambiguous(a, b) => M::Ambiguous(a * 2 + 1, b * 2 + 1),
+        };
+        if (m.earliest(), m.latest(), m.single()) != (e, l, sg) || mapped != want_mapped {
+            acc.violation("MappedLocalTime:selectors", format!("earliest / latest / single / map of {:?}", m), format!("{:?} {:?} {:?} / {:?}", e, l, sg, want_mapped), format!("{:?} {:?} {:?} / {:?}", m.earliest(), m.latest(), m.single(), mapped));
+        }
     }
 }
 
@@ -342,6 +375,9 @@ fn main() {
     let n_single = (2 * days_all.len() as u64 + SINGLE_CH - 1) / SINGLE_CH;
     let only = replay_unit(&args);
     let mut acc = explore_units(n_syn + n_rule + nfiles + n_single, CLASSES.len(), only, |u, acc| {
+        if u == 0 {
+            mapped_local_time_algebra(acc);
+        }
         if u >= n_syn + n_rule + nfiles {
             let k0 = (u - n_syn - n_rule - nfiles) * SINGLE_CH;
             for k in k0..(k0 + SINGLE_CH).min(2 * days_all.len() as u64) {
